@@ -239,9 +239,13 @@ def ev_runfor(case):
 
     k = [0]
 
+    per_step = case.get("cost_per", "evaluation") == "step"
+    armed = [True]
+
     def slow_post(t):
-        clock.t += costs[k[0] % len(costs)] / case.get("evals_per_step", 1)
-        k[0] += 1
+        if armed[0] and not per_step:
+            clock.t += costs[k[0] % len(costs)]
+            k[0] += 1
         return post(t)
 
     saved = (BASE.time, UT.time)
@@ -255,9 +259,22 @@ def ev_runfor(case):
         if orig_step is not None:
             def counted():
                 orig_step()
-                clock.steps += 1
-                clock.reads_since_step = 0
+                if armed[0]:
+                    if per_step:
+                        clock.t += costs[k[0] % len(costs)]
+                        k[0] += 1
+                    clock.steps += 1
+                    clock.reads_since_step = 0
             ch.take_step = counted
+        if case.get("pre_advance"):
+            # a chain with a history: advanced at zero virtual cost before the timed run
+            armed[0] = False
+            with contextlib.redirect_stdout(io.StringIO()):
+                with lib("pre-advance"):
+                    ch.advance(case["pre_advance"])
+            armed[0] = True
+            clock.readings.clear()
+            clock.reads_since_step = 0
         t_start = clock.t
         c0 = counts(ch, kind)
         kw = {"minutes": budget / 60.0} if budget < 3600 else {"hours": budget / 3600.0}
@@ -288,6 +305,9 @@ def ev_runfor(case):
         if clock.steps == 0:
             fails.append(fail(f"run_for/{label}/no-step-taken", "returned without stepping", config=case))
         tags.add(f"{label}:budget={budget}:steps={'1' if clock.steps == 1 else '<20' if clock.steps < 20 else '>=20'}")
+        if case.get("fresh_steps") is not None and clock.steps != case["fresh_steps"]:
+            fails.append(fail(f"run_for/{kind}/number-of-steps-depends-on-history-before-the-timed-run",
+                              f"a chain advanced by {case['pre_advance']} steps beforehand takes {clock.steps} steps in the timed run, a fresh chain {case['fresh_steps']} (same cost per step, same budget)", config=case))
     finally:
         BASE.time, UT.time = saved
     return {"fails": fails, "n": 1, "states": 1, "transitions": clock.steps, "tags": tags,
@@ -339,7 +359,18 @@ def run(ck):
     rc.append(dict(sampler="GibbsChain", costs=[2.0], budget_s=60.0, display=True))
     rc.append(dict(sampler="EnsembleSampler", costs=[0.1], budget_s=60.0, display=False))
     rc.append(dict(sampler="GibbsChain", costs=[1e-6], budget_s=0.02 * 60, display=False))
-    ck.run_cases("runfor", rc)
+    res = ck.run_cases("runfor", rc)
+    # differential oracle: with a constant cost per step the number of steps of a timed run is a function of the clock only,
+    # so a chain with a long history must take exactly as many steps as a fresh one
+    hc = []
+    for kind in ("GibbsChain", "HamiltonianChain"):
+        for c, budget in (([2.0], 60.0), ([0.1], 60.0), ([30.0], 3600.0), ([0.013], 1.0)):
+            base = dict(sampler=kind, costs=c, budget_s=budget, display=False, cost_per="step")
+            r = ck.run_cases("runfor", [base], parallel=False)[0]
+            if "sample" in r and not r["fails"]:
+                for pre in (150, 2000 if not q else 700):
+                    hc.append(dict(base, pre_advance=pre, fresh_steps=r["sample"]["steps"]))
+    ck.run_cases("runfor", hc)
     ck.rule = ("advance(m) for every m in the listed range on fresh and advanced chains, all (m1,m2) pairs, interleaved take_step, per sampler; ChainPool through a fake Pool in every task "
                "order vs. serial advance (+ real Pool runs); run_for under a virtual clock over (cost per evaluation, budget). Distinct non-trivial = (sampler, m class, fresh/advanced), pool sizes, run_for classes")
     ck.assume("virtual clock advanced by the posterior call; Pool tasks are executed one at a time in every order (workers are separate processes); EnsembleSampler.run_for is enumerated once (it is inherited but has no take_step to call: recorded known finding)")
